@@ -1,7 +1,110 @@
 package main
 
-import "ottoverif/h"
+import (
+	"fmt"
+	"strings"
 
-func genLit(c *h.Ctx)          {}
-func implNum(f []string) string { return "bad-op" }
-func implStr(f []string) string { return "bad-op" }
+	"github.com/robertkrimen/otto/parser"
+	"ottoverif/cmd/c03/astx"
+	"ottoverif/h"
+)
+
+func implNum(f []string) string {
+	v, err := parser.VerifParseNumberLiteral(astx.UnHex(f[1][1:]))
+	if err != nil {
+		return "error"
+	}
+	switch x := v.(type) {
+	case int64:
+		return h.F64Hex(float64(x)) // the runtime's toValue/float64 conversion of an int64 literal
+	case float64:
+		return h.F64Hex(x)
+	}
+	return "bad-type"
+}
+
+func implStr(f []string) (out string) {
+	defer func() {
+		if r := recover(); r != nil {
+			out = "error" // the model maps the two `panic(...)` of parseStringLiteral to none as well
+		}
+	}()
+	s, err := parser.VerifParseStringLiteral(astx.UnHex(f[1][1:]))
+	if err != nil {
+		return "error"
+	}
+	return h.BytesTok(s)
+}
+
+func randDigits(r *h.Rng, n int, alphabet string) string {
+	var sb strings.Builder
+	for i := 0; i < n; i++ {
+		sb.WriteByte(alphabet[r.Intn(len(alphabet))])
+	}
+	return sb.String()
+}
+
+// genLit: numeric literal texts of the scanner's NUMBER grammar and string literal bodies.
+func genLit(c *h.Ctx) {
+	r := c.Rng
+	add := func(s, key string) { c.Add("num x"+astx.Hex(s), "num", key) }
+	for _, s := range []string{"0", "1", "9", "10", "00", "07", "017", "0777", "0x0", "0x1F", "0Xff", "0xABCDEF", "1.5", ".5", "5.", "0.5", "0.", "1e3", "1E3", "1e+3", "1e-3", ".5e1", "5.e1", "1e400", "1e-400",
+		"9007199254740992", "9007199254740993", "9223372036854775807", "9223372036854775808", "18446744073709551615", "18446744073709551616",
+		"0x7fffffffffffffff", "0x8000000000000000", "0x8000000000000401", "0x8000000000000400", "0xffffffffffffffff", "0x10000000000000000", "0x20000000000000", "0x20000000000001",
+		"0777777777777777777777", "01000000000000000000000", "01777777777777777777777", "4.9e-324", "2.4703282292062327e-324", "1.7976931348623157e308", "1.7976931348623159e308", "0.1", "0.30000000000000004"} {
+		add(s, "num:corpus")
+	}
+	for i := 0; i < c.N(4000, 150000); i++ {
+		switch r.Intn(8) {
+		case 0:
+			add("0x"+randDigits(r, 1+r.Intn(24), "0123456789abcdefABCDEF"), "num:hex")
+		case 1: // hex around 2^63..2^64 with low bits set
+			add("0x"+randDigits(r, 1, "89abcdef")+randDigits(r, 11+r.Intn(2), "0")+randDigits(r, 3+r.Intn(2), "0123456789abcdef48c"), "num:hex-big")
+		case 2:
+			add("0"+randDigits(r, 1+r.Intn(24), "01234567"), "num:octal")
+		case 3:
+			add(randDigits(r, 1, "123456789")+randDigits(r, r.Intn(25), "0123456789"), "num:decimal-int")
+		case 4:
+			add(randDigits(r, 1, "123456789")+randDigits(r, r.Intn(6), "0123456789")+"."+randDigits(r, r.Intn(20), "0123456789"), "num:decimal-frac")
+		case 5:
+			add("."+randDigits(r, 1+r.Intn(20), "0123456789"), "num:dot-frac")
+		default:
+			m := randDigits(r, 1, "123456789") + randDigits(r, r.Intn(18), "0123456789")
+			if r.Bool() {
+				m += "." + randDigits(r, r.Intn(18), "0123456789")
+			}
+			add(m+[]string{"e", "E"}[r.Intn(2)]+[]string{"", "+", "-"}[r.Intn(3)]+fmt.Sprint(r.Intn(340)), "num:exponent")
+		}
+	}
+	adds := func(s, key string) { c.Add("str x"+astx.Hex(s), "str", key) }
+	for _, s := range []string{"", "a", "\\n", "\\b\\f\\n\\r\\t\\v", "\\x41", "\\u0041", "\\u00e9", "\\uD83D\\uDE00", "\\uD800", "\\uDFFF x", "\\0", "\\0a", "\\1", "\\12", "\\123", "\\377", "\\400", "\\477", "\\777", "\\47a",
+		"\\\\", "\\'", "\\\"", "\\a", "\\q", "\\\n", "\\\r\n", "\\\r", "\\\u2028", "\\\u2029x", "a\\\nb", "\u00e9", "\U0001F600", "\\\u00e9", "\\\\u0041", "\\\\477", "\\\\\\477", "\\x4", "\\u004", "\\xZZ"} {
+		adds(s, "str:corpus")
+	}
+	pieces := []string{"a", "Z", " ", "0", "8", "\u00e9", "\u20ac", "\U0001F600", "\\n", "\\t", "\\v", "\\b", "\\f", "\\r", "\\\\", "\\'", "\\\"", "\\a", "\\z", "\\$",
+		"\\0", "\\\n", "\\\r\n", "\\\r", "\\\u2028", "\\\u2029", "\\\u00e9"}
+	for i := 0; i < c.N(5000, 200000); i++ {
+		var sb strings.Builder
+		n := 1 + r.Intn(6)
+		for j := 0; j < n; j++ {
+			switch r.Intn(9) {
+			case 0:
+				sb.WriteString("\\x" + randDigits(r, 2, "0123456789abcdefABCDEF"))
+			case 1:
+				sb.WriteString("\\u" + randDigits(r, 4, "0123456789abcdefABCDEF"))
+			case 2:
+				sb.WriteString("\\u" + randDigits(r, 1, "dD") + randDigits(r, 1, "89abcdef") + randDigits(r, 2, "0123456789abcdef"))
+			case 3: // octal escape, not followed by a decimal digit that would leave the grammar
+				sb.WriteString("\\" + randDigits(r, 1+r.Intn(3), "01234567"))
+				sb.WriteString([]string{"_", "a", " ", "\\n"}[r.Intn(4)])
+			default:
+				p := pieces[r.Intn(len(pieces))]
+				if p == "\\0" { // `\0` followed by a decimal digit is outside the ES5 grammar
+					p += "x"
+				}
+				sb.WriteString(p)
+			}
+		}
+		adds(sb.String(), "str:random")
+	}
+}
